@@ -1,7 +1,90 @@
-import KDVerif.Model.Interleaved
+/-
+C05 — Interleaved scheduler: side passes run exactly when due, whole, and unmixed.
+
+The stream of the code-mirroring loop equals the per-update stream `l1` (C04.train_terminates_and_refines);
+in `l1` every update emits `l1Evs = batch ++ sidePasses …`, i.e. side passes occur after an update and only
+there, in config order (`sidePassesGo` walks the config list once). The theorems below pin down the
+remaining ingredients: *when* a config is due, that a pass is *whole* and *shifted into its own range*,
+that a shifted index *resolves* to the dataset and sample it was drawn for, and the zero-budget mode.
+-/
+import KDVerif.Props.C04
+import KDVerif.Lemmas.InterleavedSide
+
 namespace KDVerif.C05
 open KDVerif.Interleaved
 
-theorem placeholder : True := trivial
+/-- the code's `should_iter` assignments (in the code's order, incl. several kinds on one config)
+    decide exactly "some interval of this config was reached or crossed by this update" -/
+theorem due_exactly_when_interval_reached_or_crossed (c : Config) (epochEnd : Bool)
+    (epoch update prevSample sample : Nat) (hlt : prevSample < sample)
+    (hs : ∀ n, c.everyNSamples = some n → 0 < n) :
+    due c epochEnd epoch update sample prevSample = true ↔
+      dueSpec c epochEnd epoch update prevSample sample :=
+  due_iff_dueSpec c epochEnd epoch update prevSample sample hlt hs
+
+/-- side passes are part of an update's block and come after its batch: every event of an update
+    block that precedes the side passes is a main-batch event -/
+theorem side_passes_follow_the_batch (a : Args) (side : Nat → Nat → List Nat) (u : U) :
+    l1Evs a side u = chunkEvs (u.xs.take (l1R a u)) ++
+      sidePasses a side (decide (u.p + l1R a u = spe a)) (l1Next a u).epoch (l1Next a u).update
+        (l1Next a u).sample u.sample := rfl
+
+/-- a side pass is whole and in order: it has one event per index the sampler yields, the `i`-th event
+    carries the `i`-th index shifted by the config's offset, and it is flagged as closing a batch exactly
+    at every `bs`-th position and at the sampler's last index -/
+theorem side_pass_whole (bs len off : Nat) (xs : List Nat) :
+    (sidePass bs len off xs).length = xs.length ∧
+    ∀ (i : Nat) (h : i < xs.length),
+      (sidePass bs len off xs)[i]'(by unfold sidePass; rw [sidePassAux_length]; exact h) =
+        Ev.idx (decide ((i + 1) % bs = 0 ∨ i + 1 = len)) (off + xs[i]) := by
+  constructor
+  · exact sidePassAux_length bs len off 0 xs
+  · intro i h
+    have := sidePassAux_get bs len off 0 xs i h
+    simp only [Nat.zero_add] at this
+    exact this
+
+/-- the last event of a pass over a sampler that yields `len` indices closes a batch, so a pass never
+    leaks into the next batch -/
+theorem side_pass_ends_on_batch_boundary (bs len off : Nat) (xs : List Nat) (hlen : xs.length = len)
+    (hpos : 0 < len) :
+    (sidePass bs len off xs)[len - 1]'(by unfold sidePass; rw [sidePassAux_length]; omega) =
+      Ev.idx true (off + xs[len - 1]'(by omega)) := by
+  have := (side_pass_whole bs len off xs).2 (len - 1) (by omega)
+  rw [this]
+  have : len - 1 + 1 = len := by omega
+  simp [this]
+
+/-- **every yielded side index resolves to the dataset and sample it was drawn for**: index `x` of the
+    `i`-th config, shifted by that config's offset, is mapped by the concat dataset to
+    `(dataset i+1, sample x)` — for any number and sizes of configs -/
+theorem side_index_resolves (a : Args) (i x : Nat) (hi : i < a.configs.length)
+    (hx : x < (a.configs.map (·.dsLen)).getD i 0) :
+    concatGet (dsSizes a) (a.mainDsLen + sumList ((a.configs.map (·.dsLen)).take i) + x) = (i + 1, x) := by
+  rw [offset_eq_sum]
+  apply concatGet_offset
+  · simp [dsSizes]; omega
+  · simpa [dsSizes] using hx
+
+/-- main indices resolve to dataset 0 -/
+theorem main_index_resolves (a : Args) (x : Nat) (hx : x < a.mainDsLen) :
+    concatGet (dsSizes a) x = (0, x) := by
+  have := concatGet_offset (dsSizes a) 0 x (by simp [dsSizes]) (by simpa [dsSizes] using hx)
+  simpa [sumList] using this
+
+/-- a zero budget yields exactly one full pass over every config, in config order, and nothing else -/
+theorem zero_budget_one_pass (a : Args) (main : Nat → List Nat) (side : Nat → Nat → List Nat) (fuel : Nat)
+    (hz : zeroBudget a.budget = true) :
+    iter a ⟨0, 0, 0⟩ main side fuel = .ok (evalLoop a side) := by
+  simp [iter, hz]
+
+theorem eval_loop_is_all_passes (a : Args) (side : Nat → Nat → List Nat) (i off : Nat) (c : Config)
+    (cs : List Config) :
+    evalLoopGo a side i off (c :: cs) =
+      sidePass (sideBS a c) c.len off (side i 0) ++ evalLoopGo a side (i + 1) (off + c.dsLen) cs := rfl
+
+/-- non-vacuity: a config with both an epoch and an update interval is due at an epoch end although the
+    update interval is not reached (the F05 defect of the unfixed code) -/
+example : due ⟨some 1, some 7, none, none, 2, 2⟩ true 1 3 6 3 = true := by decide
 
 end KDVerif.C05
